@@ -724,6 +724,11 @@ func (e *Engine) consumeLog(st *Step, from int, always bool) {
 		t := e.P.Target(le.Label)
 		switch le.Kind {
 		case "S":
+			for _, prev := range st.Executed {
+				if prev == le.Label {
+					st.Findings = append(st.Findings, Finding{"executed-twice", le.Label, "the body ran twice in one build"})
+				}
+			}
 			st.Executed = append(st.Executed, le.Label)
 			if !always && t != nil && !t.Always && e.preStale[le.Label] == "" && e.Stale(le.Label) == "" && e.M.Certain(le.Label) {
 				st.Findings = append(st.Findings, Finding{"spurious", le.Label,
